@@ -292,6 +292,40 @@ def emptied(before, kw):
     return out
 
 
+def shared_elements(source, result):
+    from py_gql.schema import EnumType, InputObjectType, InterfaceType, ObjectType
+    from py_gql.schema.directives import SPECIFIED_DIRECTIVES
+    if result is source:
+        return []
+
+    def elements(schema):
+        out = {}
+        for name, t in schema.types.items():
+            if name.startswith("__") or name in ("Int", "Float", "String", "Boolean", "ID"):
+                continue
+            out[id(t)] = "type %s" % name
+            if isinstance(t, (ObjectType, InterfaceType)):
+                for f in t.fields:
+                    out[id(f)] = "field %s.%s" % (name, f.name)
+                    for a_ in f.arguments:
+                        out[id(a_)] = "argument %s.%s(%s:)" % (name, f.name, a_.name)
+            elif isinstance(t, InputObjectType):
+                for f in t.fields:
+                    out[id(f)] = "input field %s.%s" % (name, f.name)
+            elif isinstance(t, EnumType):
+                for v in t.values:
+                    out[id(v)] = "enum value %s.%s" % (name, v.name)
+        for name, d in schema.directives.items():
+            if d in SPECIFIED_DIRECTIVES:
+                continue
+            out[id(d)] = "directive @%s" % name
+            for a_ in d.arguments:
+                out[id(a_)] = "argument @%s(%s:)" % (name, a_.name)
+        return out
+    a, b = elements(source), elements(result)
+    return sorted(a[i] for i in a if i in b)
+
+
 def check(tier, seed):
     run = Run("C14", tier, seed)
     rnd = random.Random(seed)
@@ -325,6 +359,12 @@ def check(tier, seed):
         if bad:
             run.violation("schema-op:source-stays-closed", "after %s the SOURCE schema refers to foreign type objects: %s" % (label, "; ".join(bad[:3])),
                           dict(w, dangling=bad[:6]), True)
+        # "leave the source schema unmodified ... any number of times": the result owns its elements - no field, argument, input field, enum value, user type or user
+        # directive OBJECT of the source is part of the result (whoever edits the result in place, registers a resolver on it or heals it would edit the source)
+        shared = shared_elements(source, result) if not label.startswith("extend") else []          # (the property says this of the clone-based operations)
+        if shared:
+            run.violation("schema-op:result-shares-nothing-mutable-with-its-source", "%s: the result contains objects of the source schema: %s" % (label, "; ".join(shared[:4])),
+                          dict(w, shared=shared[:8]), True)
         bad = removed_unreachable(result, kw)
         if bad:
             run.violation("schema-op:removed-elements-unreachable", "%s: %s" % (label, "; ".join(bad[:3])), dict(w, reachable=bad[:6]), True)
